@@ -9,6 +9,8 @@
 (* case = [order  : sequence of component names in declaration order,      *)
 (*         robot  : [attribute name -> value kind or "missing"],           *)
 (*         clslvl : robot attributes are class-level (else createObjects), *)
+(*         shadow : the robot class ALSO has class-level attributes of the  *)
+(*                  same names holding other objects; the instance's win,   *)
 (*         comp   : [component -> [attrs : seq of [n, ann, preset],        *)
 (*                                 ctor  : seq of [n, ann]]],              *)
 (*         mode   : seq of [n, ann]  (annotated attributes of one          *)
@@ -54,6 +56,7 @@ AttrsOf(opt, c) ==
       [] opt = "peer" -> <<Attr(Peer(c), ClassOf(Peer(c)), "no")>>
       [] opt = "xA_peer" -> <<Attr("x", "A", "no"), Attr(Peer(c), ClassOf(Peer(c)), "no")>>
       [] opt = "inhA" -> <<Attr("x", "A", "inherited")>>        \* annotation on a base class of the component
+      [] opt = "xA_base" -> <<Attr("x", "A", "baseclass")>>    \* value preset on a base class of the component
 CtorOf(opt, c) ==
     CASE opt = "none" -> <<>>
       [] opt = "xA" -> <<[n |-> "x", ann |-> "A"]>>
@@ -65,10 +68,12 @@ VARIABLES case
 RobotMaps == {[x |-> a, c1_x |-> b, c2_x |-> c] : a \in RobotX, b \in RobotCX, c \in RobotCX}
 One(c) == {[attrs |-> AttrsOf(a, c), ctor |-> CtorOf(k, c)] : a \in AttrOpts, k \in CtorOpts}
 Cases ==
-    {[order |-> o, robot |-> r, clslvl |-> cl, comp |-> [c1 |-> k1, c2 |-> k2], mode |-> <<>>]
+    {[order |-> o, robot |-> r, clslvl |-> cl, shadow |-> FALSE, comp |-> [c1 |-> k1, c2 |-> k2], mode |-> <<>>]
         : o \in {x \in Orders : Len(x) = 2}, r \in RobotMaps, cl \in {FALSE}, k1 \in One("c1"), k2 \in One("c2")}
-    \cup {[order |-> <<"c1">>, robot |-> r, clslvl |-> cl, comp |-> [c1 |-> k1, c2 |-> [attrs |-> <<>>, ctor |-> <<>>]], mode |-> m]
-        : r \in RobotMaps, cl \in ClsLvl, k1 \in One("c1"),
+    \cup {[order |-> <<"c1">>, robot |-> r, clslvl |-> cl.c, shadow |-> cl.s,
+           comp |-> [c1 |-> k1, c2 |-> [attrs |-> <<>>, ctor |-> <<>>]], mode |-> m]
+        : r \in RobotMaps, cl \in {[c |-> c, s |-> sdw] : c \in ClsLvl, sdw \in BOOLEAN} \ {[c |-> TRUE, s |-> TRUE]},
+          k1 \in One("c1"),
           m \in {CASE mo = "none" -> <<>> [] mo = "xA" -> <<Attr("x", "A", "no")>> [] mo = "c1" -> <<Attr("c1", "K1", "no")>>
                    [] mo = "yA" -> <<Attr("y", "A", "no")>> : mo \in ModeOpts}}
 Init == case \in Cases
@@ -98,7 +103,7 @@ AttrFailures == {<<c, i>> \in Comps \X (1..2) :
 ModeFailures == {i \in 1..Len(case.mode) : ~Satisfied("am", case.mode[i], 99)}
 Fails == CtorFailures # {} \/ AttrFailures # {} \/ ModeFailures # {}
 
-Binding(owner, a) == IF a.n = "_p" THEN "unset" ELSE IF a.preset \in {"class", "init"} THEN "preset" ELSE Lookup(owner, a.n, 99)
+Binding(owner, a) == IF a.n = "_p" THEN "unset" ELSE IF a.preset \in {"class", "init", "baseclass"} THEN "preset" ELSE Lookup(owner, a.n, 99)
 Expected ==
     IF Fails THEN [ok |-> FALSE]
     ELSE [ok |-> TRUE,
